@@ -1078,14 +1078,18 @@ def suppress(ctx: Any) -> List[Ob]:
     # the table the look-up reads holds every known answer of the packet, under itself, built once
     gl = prog.func('zeroconf._dns.DNSRRSet._get_lookup')
     gme = gl.params[0]
-    comps_l = [v for _, st_ in attr_stores(gl.node) if isinstance(st_, ast.Assign) and self_attr(st_.targets[0], gme) == '_lookup' for v in [st_.value] if isinstance(v, ast.DictComp)]
+    from .common import expand as _xp_l
+
+    # (the table read through the local it is built in: `lookup = {...}; self._lookup = lookup; return lookup`)
+    comps_l = [v for _, st_ in attr_stores(gl.node) if isinstance(st_, ast.Assign) and self_attr(st_.targets[0], gme) == '_lookup' for v in [_xp_l(gl, st_.value, 1)] if isinstance(v, ast.DictComp)]
+    stored_locals = {st_.value.id for _, st_ in attr_stores(gl.node) if isinstance(st_, ast.Assign) and self_attr(st_.targets[0], gme) == '_lookup' and isinstance(st_.value, ast.Name)}
     ok_l = len(comps_l) == 1 and len(comps_l[0].generators) == 1 and not comps_l[0].generators[0].ifs and self_attr(comps_l[0].generators[0].iter, gme) == '_records' and norm(comps_l[0].key) == norm(comps_l[0].value) == norm(comps_l[0].generators[0].target)
     for built in (False, True):
         oc_l, _ = traces(ctx, gl, {f'{gme}._lookup': ({'r': 'r'} if built else None)}, lambda n, e: ['BUILD'] if n.kind == 'stmt' and any(self_attr(t_, gme) == '_lookup' for t_, _ in attr_stores(n.ast)) else [], loop_bound=1)
         builds = {strip_ret(t).count('BUILD') for t in oc_l}
         ok_l = ok_l and builds == ({0} if built else {1})
     rets_l = [r for r in walk_local_ordered(gl.node) if isinstance(r, ast.Return) and r.value is not None]
-    obs.append(ob(R, gl, comps_l[0] if comps_l else '{record: record for record in self._records}', 'the known-answer table maps every known answer of the packet to itself, is built on first use and then reused', ok_l and all(self_attr(r.value, gme) == '_lookup' for r in rets_l) and bool(rets_l)))
+    obs.append(ob(R, gl, comps_l[0] if comps_l else '{record: record for record in self._records}', 'the known-answer table maps every known answer of the packet to itself, is built on first use and then reused', ok_l and all(self_attr(r.value, gme) == '_lookup' or (isinstance(r.value, ast.Name) and r.value.id in stored_locals) for r in rets_l) and bool(rets_l)))
     ctor_rr = prog.func('zeroconf._dns.DNSRRSet.__init__')
     st_rr = [st_ for t_, st_ in attr_stores(ctor_rr.node) if self_attr(t_, ctor_rr.params[0]) == '_records' and isinstance(st_, ast.Assign)]
     obs.append(ob(R, ctor_rr, st_rr[0] if st_rr else 'self._records = records', 'the set keeps the known answers it is given', len(st_rr) == 1 and norm(st_rr[0].value) == ctor_rr.params[1]))
